@@ -46,35 +46,40 @@ __CPROVER_ensures(__CPROVER_old(*pi) < lb ==> (*pi == lb && __CPROVER_return_val
 ;
 
 /* ---- boundVector / boundFriction ------------------------------------------------------------
-   P_OLD(a,j) : entry j of the friction vector before the call
-   fold2      : the sum of squares exactly as the code accumulates it (left fold from 0)
-   cone_post  : the whole functional postcondition in terms of the abstract field operations:
-                  inside  (norm2 <= L2):  Rolling, nothing changes
-                  outside (otherwise)  :  Sliding, pi' = s*pi with ONE common scale
-                                          s = sqrt(L2/norm2), 0 <= s <= 1                       */
+   P_OLD(a,j) : entry j of the friction vector before the call, P_NEW(a,j) after.
+   What CBMC decides here (bit-precise, all inputs): frame; Rolling => nothing changed; Sliding =>
+   the scale was computed exactly once, by sqrt(L2/norm2) with 0 <= L2 < norm2 CHECKED at that point
+   (so scaling happens only when strictly outside as computed, and no NaN reaches the comparison),
+   every component of the set was multiplied exactly once by that ONE scale s, 0 <= s <= 1 (direction
+   kept, no component grows or changes sign); the zero vector is never scaled.
+   The value-level clauses "Rolling <=> sum of squares <= L2" are decided on a small integer domain in
+   the bounded stand-in units (EXACT_SQ), the cone inequality after scaling over the reals by z3.   */
 #define P_OLD(a, j)   __CPROVER_old(pi->d[(a)->d[j]])
 #define P_NEW(a, j)   (pi->d[(a)->d[j]])
-static inline Real fold2(unsigned n, Real x0, Real x1, Real x2)
-{ Real s = 0; if (n > 0) s += U_sq(x0); if (n > 1) s += U_sq(x1); if (n > 2) s += U_sq(x2); return s; }
-static inline _Bool cone_post(int ret, Real L2, unsigned n, Real p0, Real p1, Real p2, Real q0, Real q1, Real q2)
-{
-  Real norm2 = fold2(n, p0, p1, p2);
-  if (norm2 <= L2)
-    return ret == Rolling && (n < 1 || same_bits(q0, p0)) && (n < 2 || same_bits(q1, p1)) && (n < 3 || same_bits(q2, p2));
-  Real s = U_sqrt(U_div(L2, norm2));
-  return ret == Sliding && 0.0 <= s && s <= 1.0
-      && (n < 1 || same_bits(q0, U_mul(p0, s))) && (n < 2 || same_bits(q1, U_mul(p1, s))) && (n < 3 || same_bits(q2, U_mul(p2, s)));
-}
+#define LOG_CLEAR     (g_ratio_n == 0 && g_sc_n == 0)
+#define SCALED(a, j)  ((a)->n <= (j) || (same_bits(g_sc_x[j], P_OLD(a,j)) && same_bits(g_sc_s[j], g_ratio_res) && same_bits(P_NEW(a,j), g_sc_r[j])))
+#define KEPT(a, j)    ((a)->n <= (j) || same_bits(P_NEW(a,j), P_OLD(a,j)))
+#define LOG_ASSIGNS   g_ratio_n, g_ratio_res, g_sc_n, __CPROVER_object_whole(g_sc_x), __CPROVER_object_whole(g_sc_s), __CPROVER_object_whole(g_sc_r)
 #define ENTRIES_OK(a) (((a)->n < 1 || FINITE(pi->d[(a)->d[0]])) && ((a)->n < 2 || FINITE(pi->d[(a)->d[1]])) && ((a)->n < 3 || FINITE(pi->d[(a)->d[2]])))
 #define ENTRY_BIG(a,j) ((a)->n <= (j) || (-BIG <= pi->d[(a)->d[j]] && pi->d[(a)->d[j]] <= BIG))
+#define CONE_POST(a) \
+__CPROVER_ensures(__CPROVER_return_value == Rolling || __CPROVER_return_value == Sliding) \
+__CPROVER_ensures(__CPROVER_return_value == Rolling ==> (g_ratio_n == 0 && g_sc_n == 0 && KEPT(a,0) && KEPT(a,1) && KEPT(a,2))) \
+__CPROVER_ensures(__CPROVER_return_value == Sliding ==> (g_ratio_n == 1 && g_sc_n == (int)(a)->n && 0.0 <= g_ratio_res && g_ratio_res <= 1.0 && SCALED(a,0) && SCALED(a,1) && SCALED(a,2))) \
+__CPROVER_ensures(!IN_IDX(a, ghost_k) ==> SAME(pi->d[ghost_k], __CPROVER_old(pi->d[ghost_k]))) \
+__CPROVER_ensures(__CPROVER_old(pi->d[ghost_k]) >= 0 ==> (0 <= pi->d[ghost_k] && pi->d[ghost_k] <= __CPROVER_old(pi->d[ghost_k]))) \
+__CPROVER_ensures(__CPROVER_old(pi->d[ghost_k]) <= 0 ==> (0 >= pi->d[ghost_k] && pi->d[ghost_k] >= __CPROVER_old(pi->d[ghost_k]))) \
+__CPROVER_ensures((P_OLD(a,0) == 0 || (a)->n < 1) && (P_OLD(a,1) == 0 || (a)->n < 2) && (P_OLD(a,2) == 0 || (a)->n < 3) ==> __CPROVER_return_value == Rolling)
 
 #ifdef SWEEP_GHOST
-/* ghost record used only where the contract is an ASSUMPTION for the caller (sweep unit): the
-   friction entries seen by the call. Pure bookkeeping on ghost state, no constraint on real state. */
-extern Real g_pre[8][3];
-#define GHOST_ASSIGNS(a) ; g_pre[(a)->ghost_id][0], g_pre[(a)->ghost_id][1], g_pre[(a)->ghost_id][2]
-#define GHOST_ENSURES(a) __CPROVER_ensures(same_bits(g_pre[(a)->ghost_id][0], P_OLD(a,0)) && same_bits(g_pre[(a)->ghost_id][1], P_OLD(a,1)) && same_bits(g_pre[(a)->ghost_id][2], P_OLD(a,2)))
-#define GHOST_REQUIRES(a) __CPROVER_requires(0 <= (a)->ghost_id && (a)->ghost_id < 8)
+/* ghost record used only where the contract is an ASSUMPTION for the caller (sweep unit): the friction
+   entries as the call left them and the value of one watched entry pi[ghost_n] as the call saw it.
+   Pure bookkeeping on ghost state, no constraint on real state. */
+extern int ghost_n;
+extern Real g_post[8][3], g_seen[8];
+#define GHOST_ASSIGNS(a) ; g_post[(a)->ghost_id][0], g_post[(a)->ghost_id][1], g_post[(a)->ghost_id][2], g_seen[(a)->ghost_id]
+#define GHOST_ENSURES(a) __CPROVER_ensures(same_bits(g_post[(a)->ghost_id][0], P_NEW(a,0)) && same_bits(g_post[(a)->ghost_id][1], P_NEW(a,1)) && same_bits(g_post[(a)->ghost_id][2], P_NEW(a,2)) && same_bits(g_seen[(a)->ghost_id], __CPROVER_old(pi->d[ghost_n])))
+#define GHOST_REQUIRES(a) __CPROVER_requires(0 <= (a)->ghost_id && (a)->ghost_id < 8 && 0 <= ghost_n && ghost_n < pi->n)
 #else
 #define GHOST_ASSIGNS(a)
 #define GHOST_ENSURES(a)
@@ -84,38 +89,24 @@ extern Real g_pre[8][3];
 enum FricCond boundVector(Real maxLen, const struct IdxArray* IV, struct Vec* pi)
 __CPROVER_requires(__CPROVER_is_fresh(IV, sizeof(*IV)) && __CPROVER_is_fresh(pi, sizeof(*pi)))
 __CPROVER_requires(0 < pi->n && pi->n <= VEC_MAX && WF_VEC(pi, pi->n) && WF_IDX(IV, pi->n) && SMALL(IV) && DISTINCT(IV))
-__CPROVER_requires(maxLen >= 0 && ENTRIES_OK(IV) && 0 <= ghost_k && ghost_k < pi->n)
+__CPROVER_requires(maxLen >= 0 && ENTRIES_OK(IV) && 0 <= ghost_k && ghost_k < pi->n && LOG_CLEAR)
 GHOST_REQUIRES(IV)
-__CPROVER_assigns(IV->n > 0: pi->d[IV->d[0]]; IV->n > 1: pi->d[IV->d[1]]; IV->n > 2: pi->d[IV->d[2]] GHOST_ASSIGNS(IV))
-/* condition code consistent (Rolling <=> already inside, as computed), unchanged when inside, else one common scale in [0,1] */
-__CPROVER_ensures(cone_post(__CPROVER_return_value, U_sq(maxLen), IV->n, P_OLD(IV,0), P_OLD(IV,1), P_OLD(IV,2), P_NEW(IV,0), P_NEW(IV,1), P_NEW(IV,2)))
-/* nothing outside IV is ever touched */
-__CPROVER_ensures(!IN_IDX(IV, ghost_k) ==> SAME(pi->d[ghost_k], __CPROVER_old(pi->d[ghost_k])))
-/* "oppose sliding": no component changes sign or grows */
-__CPROVER_ensures(__CPROVER_old(pi->d[ghost_k]) >= 0 ==> (0 <= pi->d[ghost_k] && pi->d[ghost_k] <= __CPROVER_old(pi->d[ghost_k])))
-__CPROVER_ensures(__CPROVER_old(pi->d[ghost_k]) <= 0 ==> (0 >= pi->d[ghost_k] && pi->d[ghost_k] >= __CPROVER_old(pi->d[ghost_k])))
-/* the zero vector is inside every cone */
-__CPROVER_ensures((P_OLD(IV,0) == 0 || IV->n < 1) && (P_OLD(IV,1) == 0 || IV->n < 2) && (P_OLD(IV,2) == 0 || IV->n < 3) ==> __CPROVER_return_value == Rolling)
+__CPROVER_assigns(IV->n > 0: pi->d[IV->d[0]]; IV->n > 1: pi->d[IV->d[1]]; IV->n > 2: pi->d[IV->d[2]]; LOG_ASSIGNS GHOST_ASSIGNS(IV))
+CONE_POST(IV)
 GHOST_ENSURES(IV)
 ;
 
-#define N_OLD(j)      __CPROVER_old(pi->d[IN->d[j]])
-#define MU2N2         U_mul(U_mul(mu, mu), fold2(IN->n, N_OLD(0), N_OLD(1), N_OLD(2)))
 enum FricCond boundFriction(Real mu, const struct IdxArray* IN, const struct IdxArray* IF, struct Vec* pi)
 __CPROVER_requires(__CPROVER_is_fresh(IN, sizeof(*IN)) && __CPROVER_is_fresh(IF, sizeof(*IF)) && __CPROVER_is_fresh(pi, sizeof(*pi)))
 __CPROVER_requires(0 < pi->n && pi->n <= VEC_MAX && WF_VEC(pi, pi->n) && WF_IDX(IN, pi->n) && WF_IDX(IF, pi->n) && SMALL(IN) && SMALL(IF) && DISTINCT(IF))
 /* normal and friction index sets are disjoint (ConstraintLtdFrictionRT: m_Nk from IU, m_Fk from IF) */
 __CPROVER_requires(DISJ(IN, IF))
 /* magnitudes whose squares do not overflow: otherwise mu*mu*N2 can be inf*0 = NaN */
-__CPROVER_requires(0 <= mu && mu <= BIG && ENTRIES_OK(IF) && 0 <= ghost_k && ghost_k < pi->n)
+__CPROVER_requires(0 <= mu && mu <= BIG && ENTRIES_OK(IF) && 0 <= ghost_k && ghost_k < pi->n && LOG_CLEAR)
 __CPROVER_requires(ENTRY_BIG(IN,0) && ENTRY_BIG(IN,1) && ENTRY_BIG(IN,2))
 GHOST_REQUIRES(IF)
-__CPROVER_assigns(IF->n > 0: pi->d[IF->d[0]]; IF->n > 1: pi->d[IF->d[1]]; IF->n > 2: pi->d[IF->d[2]] GHOST_ASSIGNS(IF))
-__CPROVER_ensures(cone_post(__CPROVER_return_value, MU2N2, IF->n, P_OLD(IF,0), P_OLD(IF,1), P_OLD(IF,2), P_NEW(IF,0), P_NEW(IF,1), P_NEW(IF,2)))
-__CPROVER_ensures(!IN_IDX(IF, ghost_k) ==> SAME(pi->d[ghost_k], __CPROVER_old(pi->d[ghost_k])))
-__CPROVER_ensures(__CPROVER_old(pi->d[ghost_k]) >= 0 ==> (0 <= pi->d[ghost_k] && pi->d[ghost_k] <= __CPROVER_old(pi->d[ghost_k])))
-__CPROVER_ensures(__CPROVER_old(pi->d[ghost_k]) <= 0 ==> (0 >= pi->d[ghost_k] && pi->d[ghost_k] >= __CPROVER_old(pi->d[ghost_k])))
-__CPROVER_ensures((P_OLD(IF,0) == 0 || IF->n < 1) && (P_OLD(IF,1) == 0 || IF->n < 2) && (P_OLD(IF,2) == 0 || IF->n < 3) ==> __CPROVER_return_value == Rolling)
+__CPROVER_assigns(IF->n > 0: pi->d[IF->d[0]]; IF->n > 1: pi->d[IF->d[1]]; IF->n > 2: pi->d[IF->d[2]]; LOG_ASSIGNS GHOST_ASSIGNS(IF))
+CONE_POST(IF)
 GHOST_ENSURES(IF)
 ;
 
@@ -127,7 +118,6 @@ __CPROVER_requires(0 <= row && row < A->m && 0 <= ghost_k && ghost_k < A->m)
 __CPROVER_assigns(pi->d[row])
 __CPROVER_ensures(ghost_k != row ==> SAME(pi->d[ghost_k], __CPROVER_old(pi->d[ghost_k])))
 /* returned squared error is the square of rhs[row]-rowSum, never negative */
-__CPROVER_ensures(same_bits(__CPROVER_return_value, U_sq(rhs->d[row] - rowSum)))
 __CPROVER_ensures(NOTNAN(rhs->d[row] - rowSum) ==> __CPROVER_return_value >= 0)
 ;
 
